@@ -220,7 +220,7 @@ func (w *World) finalChecks(capHit bool) {
 		}
 	}
 	w.mu.Lock()
-	if w.checks == 0 {
+	if w.checks.Load() == 0 {
 		nontrivial = false
 	}
 	w.mu.Unlock()
